@@ -289,8 +289,10 @@ def judge(ctx, case, exp, open_fn, model_table=None, expect_n_node=None, centres
     check_source("during the first opening")
     ctx.hit("reopened-same-source")
     for o in others:
-        judge_once(ctx, case, o["exp"], o["open_fn"], o.get("model_table"), o.get("expect_n_node"), o.get("centres"),
-                   phase="other-opening")
+        go = judge_once(ctx, case, o["exp"], o["open_fn"], o.get("model_table"), o.get("expect_n_node"), o.get("centres"),
+                        phase="other-opening")
+        if go is not None and o.get("post"):
+            o["post"](go)
         check_source("during the opening of the other mesh")
     judge_once(ctx, case, exp, open_fn, model_table, expect_n_node, centres, phase="second-opening")
     check_source("during the second opening")
@@ -560,97 +562,228 @@ def edges_of(faces):
     return edges, fe, ef
 
 
-def case_mpas(ctx, case, sc):
+MPAS_FLOATS = dict(primal=dict(face_areas="areaCell", edge_node_distances="dvEdge", edge_face_distances="dcEdge"),
+                   dual=dict(face_areas="areaTriangle", edge_node_distances="dcEdge", edge_face_distances="dvEdge"))
+
+
+def mpas_expectations(d, T):
+    """what every table the MPAS reader parses must become, primal and dual: the Lean decoders
+    (`mpas_cells_reindex` / `mpas_zeros_reindex`: k -> k-1, 0 -> FILL wherever it stands, everything past
+    nEdgesOnCell -> FILL), evaluated on the raw tables BEFORE any opening"""
+    ne = enc_ints(T["nEdgesOnCell"].tolist())
+    p = lambda name: common.Tok(d.ask("C01.mpas", enc_rows(T[name].tolist()), ne)).rows()
+    z = lambda name: common.Tok(d.ask("C01.mpasz", enc_rows(T[name].tolist()))).rows()
+    primal = dict(node_face_connectivity=z("cellsOnVertex"))
+    dual = dict(node_face_connectivity=p("verticesOnCell"))
+    if "verticesOnEdge" in T:
+        primal["edge_node_connectivity"] = dual["edge_face_connectivity"] = z("verticesOnEdge")
+    if "cellsOnEdge" in T:
+        primal["edge_face_connectivity"] = dual["edge_node_connectivity"] = z("cellsOnEdge")
+    if "edgesOnCell" in T:
+        primal["face_edge_connectivity"] = p("edgesOnCell")
+    if "edgesOnVertex" in T:
+        dual["face_edge_connectivity"] = z("edgesOnVertex")
+    if "cellsOnCell" in T:
+        primal["face_face_connectivity"] = p("cellsOnCell")
+    return dict(primal=primal, dual=dual)
+
+
+def mpas_check_carried(ctx, case, g, mode, wants, floats, when):
+    """every table / array the source supplies, entry by entry, on Grid `g` opened as `mode`"""
+    for name, want in wants[mode].items():
+        sig = f"C01/mpas/mode={mode}/carried/{name}"
+        try:
+            v = np.asarray(getattr(g, name).values)
+            got, dt = [[int(x) for x in r] for r in v.tolist()], str(v.dtype)
+        except Exception as e:
+            ctx.fail(sig + "/raises", f"mpas ({mode}, {when}): supplied {name} raises {type(e).__name__}: {str(e)[:120]}", case)
+            continue
+        ctx.hit("carried-table-checked")
+        ctx.hit(f"mpas-carried:{mode}:{name}")
+        if got != want or dt != "int64":
+            bad = [(i, j) for i, (r1, r2) in enumerate(zip(got, want)) for j, (x, y) in enumerate(zip(r1, r2)) if x != y][:5]
+            ctx.fail(sig, f"mpas ({mode}, {when}): supplied {name} is not carried over with the same meaning (k -> k-1, missing 0 -> the "
+                          f"standard fill, padding -> fill, standard dtype); first differing entries {bad}",
+                     case, dict(table=got[:40], dtype=dt), want[:40], ["carried_connectivity"])
+    for name, srcname in MPAS_FLOATS[mode].items():
+        if srcname not in floats:
+            continue
+        try:
+            got = np.asarray(getattr(g, name).values, float)
+        except Exception as e:
+            ctx.fail(f"C01/mpas/mode={mode}/carried/{name}/raises", f"mpas ({mode}, {when}): supplied {srcname} raises {type(e).__name__}", case)
+            continue
+        ctx.hit("carried-array-checked")
+        if got.shape != floats[srcname].shape or not np.array_equal(got, floats[srcname]):
+            ctx.fail(f"C01/mpas/mode={mode}/carried/{name}", f"mpas ({mode}, {when}): supplied {srcname} is not carried over as {name}", case,
+                     got[:20], floats[srcname][:20], ["carried_arrays"])
+
+
+def mpas_run(ctx, case, sc, T, coords, floats, primal_exp, dual_exp, first_mode):
+    """T: integer tables, coords: radians arrays, floats: supplied float arrays; dual_exp None when the
+    dataset describes no dual mesh (partial mesh / incomplete vertex rings)"""
     import uxarray as ux
     import xarray as xr
 
-    d, dl = ctx.driver, case["dialect"]
-    faces, n = case["faces"], len(case["lon"])
-    w = max(map(len, faces)) + dl["extra_w"]
-    gv = dl["garbage"]
-    it = NP_STORE[dl.get("store", "i32")]
-    voc = np.array([[v + 1 for v in f] + pad_tail(gv, f, w, dl["pad"], n) for f in faces], dtype=it)
-    nedges = np.array([len(f) for f in faces], dtype=it)
-    inc = incidence(faces, n)
-    # cellsOnVertex: the cells around a vertex in counter-clockwise order whenever every vertex has a
-    # complete ring (then the same dataset describes the primal AND the dual mesh)
-    am = meshes.AMesh(faces, xyz_of(case["lon"], case["lat"]), True, "src")
-    dual = meshes.dual_of(am) if all(len(r) >= 3 for r in inc) and dl.get("closed", dl["dual"]) else None
-    has_dual = dual is not None and len(dual.faces) == n
-    if dl["dual"] and not has_dual:
-        ctx.hit("outside-quantifier(dual needs valence>=3)")
-        return
-    cov_rows = dual.faces if has_dual else inc
-    vd = max(max(map(len, cov_rows)), 3)
-    cov = np.array([[c + 1 for c in r] + [0] * (vd - len(r)) for r in cov_rows], dtype=it)
-    cent = np.array([am.xyz[f].mean(axis=0) for f in faces])
-    cent /= np.linalg.norm(cent, axis=1, keepdims=True)
-    clon, clat = np.arctan2(cent[:, 1], cent[:, 0]), np.arcsin(np.clip(cent[:, 2], -1, 1))
-    two_pi = (lambda a: np.where(a < 0, a + 2 * np.pi, a)) if dl.get("lon360", True) else (lambda a: a)
-    edges, fe, ef = edges_of(faces)
+    d = ctx.driver
+    dims = dict(verticesOnCell=["nCells", "maxEdges"], edgesOnCell=["nCells", "maxEdges"], cellsOnCell=["nCells", "maxEdges"],
+                nEdgesOnCell=["nCells"], cellsOnVertex=["nVertices", "vertexDegree"], edgesOnVertex=["nVertices", "vertexDegree"],
+                verticesOnEdge=["nEdges", "TWO"], cellsOnEdge=["nEdges", "TWO"], areaCell=["nCells"], areaTriangle=["nVertices"],
+                dvEdge=["nEdges"], dcEdge=["nEdges"], lonVertex=["nVertices"], latVertex=["nVertices"], lonCell=["nCells"],
+                latCell=["nCells"], lonEdge=["nEdges"], latEdge=["nEdges"])
+    wants = mpas_expectations(d, T)
+    mt_primal = common.Tok(d.ask("C01.mpas", enc_rows(T["verticesOnCell"].tolist()), enc_ints(T["nEdgesOnCell"].tolist()))).rows()
+    mt_dual = common.Tok(d.ask("C01.mpasz", enc_rows(T["cellsOnVertex"].tolist()))).rows() if dual_exp is not None else None
+    floats = {k: np.array(v, dtype=float) for k, v in floats.items()}
     ds = xr.Dataset()
-    ds["verticesOnCell"] = xr.DataArray(voc, dims=["nCells", "maxEdges"])
-    ds["nEdgesOnCell"] = xr.DataArray(nedges, dims=["nCells"])
-    ds["cellsOnVertex"] = xr.DataArray(cov, dims=["nVertices", "vertexDegree"])
-    ds["lonVertex"] = xr.DataArray(two_pi(np.radians(np.asarray(case["lon"], float))), dims=["nVertices"])
-    ds["latVertex"] = xr.DataArray(np.radians(np.asarray(case["lat"], float)), dims=["nVertices"])
-    ds["lonCell"] = xr.DataArray(two_pi(clon), dims=["nCells"])
-    ds["latCell"] = xr.DataArray(clat, dims=["nCells"])
-    carried, area = {}, None
-    if dl.get("tables") and not dl["dual"]:
-        voe = np.array([[a + 1, b + 1] for a, b in edges], dtype=it)
-        coe = np.array([[r[0] + 1, (r[1] + 1) if len(r) > 1 else 0] for r in ef], dtype=it)
-        eoc = np.array([[e + 1 for e in r] + pad_tail(gv, r, w, dl["pad"], len(edges)) for r in fe], dtype=it)
-        ds["verticesOnEdge"] = xr.DataArray(voe, dims=["nEdges", "TWO"])
-        ds["cellsOnEdge"] = xr.DataArray(coe, dims=["nEdges", "TWO"])
-        ds["edgesOnCell"] = xr.DataArray(eoc, dims=["nCells", "maxEdges"])
-        area = np.arange(1, len(faces) + 1, dtype=float) * 0.125
-        ds["areaCell"] = xr.DataArray(area.copy(), dims=["nCells"])
-        # expectations are computed BEFORE any opening (the reader must not, but might, write into the source)
-        for name, kind, tab in (("edge_node_connectivity", "z", voe), ("edge_face_connectivity", "z", coe),
-                                ("face_edge_connectivity", "p", eoc), ("node_face_connectivity", "z", cov)):
-            if kind == "p":
-                carried[name] = common.Tok(d.ask("C01.mpas", enc_rows(tab.tolist()), enc_ints(nedges.tolist()))).rows()
-            else:
-                carried[name] = common.Tok(d.ask("C01.mpasz", enc_rows(tab.tolist()))).rows()
+    for k, v in list(T.items()) + list(coords.items()):
+        ds[k] = xr.DataArray(v, dims=dims[k])
+    for k, v in floats.items():
+        ds[k] = xr.DataArray(v.copy(), dims=dims[k])
     if case.get("via_file"):
         path = sc.path(".nc")
         ds.to_netcdf(path)
         src, source = path, None
     else:
         src = source = ds
-    dual_open = dict(exp=dict(faces=cov_rows, lon=np.degrees(clon), lat=np.degrees(clat)),
-                     open_fn=lambda: ux.open_grid(src, use_dual=True),
-                     model_table=common.Tok(d.ask("C01.mpasz", enc_rows(cov.tolist()))).rows() if has_dual else None,
-                     expect_n_node=len(faces), centres=(np.asarray(case["lon"], float), np.asarray(case["lat"], float)))
-    primal_open = dict(exp=dict(faces=faces, lon=case["lon"], lat=case["lat"]), open_fn=lambda: ux.open_grid(src),
-                       model_table=common.Tok(d.ask("C01.mpas", enc_rows(voc.tolist()), enc_ints(nedges.tolist()))).rows(),
-                       expect_n_node=n, centres=(np.degrees(clon), np.degrees(clat)))
-    first, other = (dual_open, primal_open) if dl["dual"] else (primal_open, dual_open)
+    deg = np.degrees
+    opens = dict(primal=dict(exp=primal_exp, open_fn=lambda: ux.open_grid(src), model_table=mt_primal,
+                             expect_n_node=len(coords["lonVertex"]), centres=(deg(coords["lonCell"]), deg(coords["latCell"])),
+                             post=lambda g: mpas_check_carried(ctx, case, g, "primal", wants, floats, "other opening")))
+    if dual_exp is not None:
+        opens["dual"] = dict(exp=dual_exp, open_fn=lambda: ux.open_grid(src, use_dual=True), model_table=mt_dual,
+                             expect_n_node=len(coords["lonCell"]), centres=(deg(coords["lonVertex"]), deg(coords["latVertex"])),
+                             post=lambda g: mpas_check_carried(ctx, case, g, "dual", wants, floats, "other opening"))
+    first = opens[first_mode]
+    others = [o for m, o in opens.items() if m != first_mode]
     g = judge(ctx, case, first["exp"], first["open_fn"], first["model_table"], expect_n_node=first["expect_n_node"],
-              centres=first["centres"], source=source, others=[other] if has_dual else [])
-    if g is None:
+              centres=first["centres"], source=source, others=others)
+    if g is not None:
+        # the first Grid, after every later opening of the same source
+        mpas_check_carried(ctx, case, g, first_mode, wants, floats, "first Grid after the later openings")
+
+
+def case_mpas(ctx, case, sc):
+    dl = case["dialect"]
+    faces, n = case["faces"], len(case["lon"])
+    w = max(map(len, faces)) + dl["extra_w"]
+    gv = dl["garbage"]
+    it = NP_STORE[dl.get("store", "i32")]
+    T = {}
+    T["verticesOnCell"] = np.array([[v + 1 for v in f] + pad_tail(gv, f, w, dl["pad"], n) for f in faces], dtype=it)
+    T["nEdgesOnCell"] = np.array([len(f) for f in faces], dtype=it)
+    inc = incidence(faces, n)
+    edges, fe, ef = edges_of(faces)
+    # cellsOnVertex: the cells around a vertex in counter-clockwise order whenever every vertex has a
+    # complete ring (then the same dataset describes the primal AND the dual mesh); otherwise the cells
+    # of the vertex with the missing ones (0) anywhere in the row, as in a regional MPAS mesh
+    am = meshes.AMesh(faces, xyz_of(case["lon"], case["lat"]), True, "src")
+    dual = meshes.dual_of(am) if all(len(r) >= 3 for r in inc) and dl.get("closed", dl["dual"]) else None
+    has_dual = dual is not None and len(dual.faces) == n
+    if dl["dual"] and not has_dual:
+        ctx.hit("outside-quantifier(dual needs valence>=3)")
         return
-    cls_sig = sig_of(dict(fmt="mpas", dialect=dialect_class(case)))
-    for name, want in carried.items():
-        try:
-            v = getattr(g, name)
-            got = [[int(x) for x in r] for r in np.asarray(v.values).tolist()]
-            dt = str(np.asarray(v.values).dtype)
-        except Exception as e:
-            ctx.fail(f"C01/{cls_sig}/carried/{name}/raises", f"mpas: supplied {name} raises {type(e).__name__}", case)
-            continue
-        ctx.hit("carried-table-checked")
-        if got != want or dt != "int64":
-            ctx.fail(f"C01/{cls_sig}/carried/{name}", f"mpas: supplied {name} is not carried over re-based (same element pairs, standard fill)",
-                     case, dict(table=got[:40], dtype=dt), want[:40], ["carried_connectivity"])
-    if carried:
-        try:
-            fa = np.asarray(g.face_areas.values, float)
-            if not np.array_equal(fa, area):
-                ctx.fail(f"C01/{cls_sig}/carried/face_areas", "mpas: supplied areaCell is not carried over", case, fa[:20], None, ["carried_areas"])
-        except Exception as e:
-            ctx.fail(f"C01/{cls_sig}/carried/face_areas/raises", f"mpas: face_areas raises {type(e).__name__}", case)
+    vedges = [[] for _ in range(n)]
+    for e, (a, b) in enumerate(edges):
+        vedges[a].append(e)
+        vedges[b].append(e)
+    vd = max(max(map(len, inc)), max(map(len, vedges)), 3)
+    if has_dual:
+        cov_rows = dual.faces
+        cov = [[c + 1 for c in r] + [0] * (vd - len(r)) for r in cov_rows]
+    else:
+        cov_rows = None
+        cov = []
+        for v, r in enumerate(inc):
+            row = [c + 1 for c in r] + [0] * (vd - len(r))
+            k = v % vd
+            cov.append(row[k:] + row[:k])  # zeros inside the row
+    T["cellsOnVertex"] = np.array(cov, dtype=it)
+    cent = np.array([am.xyz[f].mean(axis=0) for f in faces])
+    cent /= np.linalg.norm(cent, axis=1, keepdims=True)
+    clon, clat = np.arctan2(cent[:, 1], cent[:, 0]), np.arcsin(np.clip(cent[:, 2], -1, 1))
+    two_pi = (lambda a: np.where(a < 0, a + 2 * np.pi, a)) if dl.get("lon360", True) else (lambda a: a)
+    coords = dict(lonVertex=two_pi(np.radians(np.asarray(case["lon"], float))), latVertex=np.radians(np.asarray(case["lat"], float)),
+                  lonCell=two_pi(clon), latCell=clat)
+    floats = {}
+    if dl.get("tables"):
+        T["verticesOnEdge"] = np.array([[a + 1, b + 1] for a, b in edges], dtype=it)
+        # a boundary edge has ONE cell: the missing one (0) first or second
+        T["cellsOnEdge"] = np.array([([r[0] + 1, r[1] + 1] if len(r) > 1 else ([r[0] + 1, 0] if e % 2 == 0 else [0, r[0] + 1]))
+                                     for e, r in enumerate(ef)], dtype=it)
+        T["edgesOnCell"] = np.array([[e + 1 for e in r] + pad_tail(gv, r, w, dl["pad"], len(edges)) for r in fe], dtype=it)
+        # cellsOnCell: the neighbour across each edge of the cell, 0 INSIDE the valid prefix at a boundary edge
+        nbr = [[next((g + 1 for g in ef[e] if g != fi), 0) for e in r] for fi, r in enumerate(fe)]
+
+        def tail_cells(r):
+            k = w - len(r)
+            if dl["pad"] == "zeros":
+                return [0] * k
+            if dl["pad"] == "repeat":
+                return [r[-1]] * k
+            return [gv[(j * 5 + len(r)) % len(gv)] % len(faces) + 1 for j in range(k)]
+
+        T["cellsOnCell"] = np.array([r + tail_cells(r) for r in nbr], dtype=it)
+        T["edgesOnVertex"] = np.array([[e + 1 for e in r] + [0] * (vd - len(r)) for r in vedges], dtype=it)
+        floats = dict(areaCell=np.arange(1, len(faces) + 1, dtype=float) * 0.125, areaTriangle=np.arange(1, n + 1, dtype=float) * 0.03125,
+                      dvEdge=np.arange(1, len(edges) + 1, dtype=float) * 0.5, dcEdge=np.arange(1, len(edges) + 1, dtype=float) * 0.75)
+        if any(0 in r for r in nbr):
+            ctx.hit("mpas:boundary-cells(cellsOnCell has 0 inside the valid prefix)")
+    primal_exp = dict(faces=faces, lon=case["lon"], lat=case["lat"])
+    dual_exp = dict(faces=cov_rows, lon=np.degrees(clon), lat=np.degrees(clat)) if has_dual else None
+    mpas_run(ctx, case, sc, T, coords, floats, primal_exp, dual_exp, "dual" if dl["dual"] else "primal")
+
+
+def case_mpas_cut(ctx, case, sc):
+    """a regional cut-out of the MPAS sample file: the cells inside a cap, renumbered, every reference to a
+    removed cell / edge set to 0 (what a regional MPAS mesh looks like), all optional tables carried"""
+    dl = case["dialect"]
+    path = common.REPO / "test/meshfiles/mpas/QU/mesh.QU.1920km.151026.nc"
+    if not path.exists():
+        ctx.notes.append("MPAS sample file missing: cut-out case skipped")
+        return
+    raw = _raw(path)
+    V = lambda k: np.asarray(raw[k].values)
+    c = xyz_of([dl["lon0"]], [dl["lat0"]])[0]
+    cxyz = xyz_of(np.degrees(V("lonCell")), np.degrees(V("latCell")))
+    keep = np.nonzero(cxyz @ c >= math.cos(math.radians(dl["radius"])))[0]
+    if len(keep) < 2:
+        ctx.hit("outside-quantifier(empty cut-out)")
+        return
+    ne_old = V("nEdgesOnCell")
+    voc_o, eoc_o, coc_o = V("verticesOnCell"), V("edgesOnCell"), V("cellsOnCell")
+    cmap = {int(o) + 1: i + 1 for i, o in enumerate(keep)}
+    vs = sorted({int(v) for o in keep for v in voc_o[o, : ne_old[o]]})
+    es = sorted({int(e) for o in keep for e in eoc_o[o, : ne_old[o]]})
+    vmap = {o: i + 1 for i, o in enumerate(vs)}
+    emap = {o: i + 1 for i, o in enumerate(es)}
+    it = NP_STORE[dl.get("store", "i32")]
+    w = voc_o.shape[1]
+
+    def cell_rows(tab, mp):
+        out = []
+        for o in keep:
+            k = int(ne_old[o])
+            r = [mp.get(int(x), 0) for x in tab[o, :k]]
+            out.append(r + ([0] * (w - k) if dl["pad"] == "zeros" else [r[-1]] * (w - k)))
+        return np.array(out, dtype=it)
+
+    T = dict(verticesOnCell=cell_rows(voc_o, vmap), edgesOnCell=cell_rows(eoc_o, emap), cellsOnCell=cell_rows(coc_o, cmap),
+             nEdgesOnCell=np.array([int(ne_old[o]) for o in keep], dtype=it))
+    vi, ei = [o - 1 for o in vs], [o - 1 for o in es]
+    T["cellsOnVertex"] = np.array([[cmap.get(int(x), 0) for x in V("cellsOnVertex")[o]] for o in vi], dtype=it)
+    T["edgesOnVertex"] = np.array([[emap.get(int(x), 0) for x in V("edgesOnVertex")[o]] for o in vi], dtype=it)
+    T["cellsOnEdge"] = np.array([[cmap.get(int(x), 0) for x in V("cellsOnEdge")[o]] for o in ei], dtype=it)
+    T["verticesOnEdge"] = np.array([[vmap.get(int(x), 0) for x in V("verticesOnEdge")[o]] for o in ei], dtype=it)
+    coords = dict(lonVertex=V("lonVertex")[vi], latVertex=V("latVertex")[vi], lonCell=V("lonCell")[keep], latCell=V("latCell")[keep])
+    floats = dict(areaCell=V("areaCell")[keep], areaTriangle=V("areaTriangle")[vi], dvEdge=V("dvEdge")[ei], dcEdge=V("dcEdge")[ei])
+    faces = [[int(x) - 1 for x in r[:k]] for r, k in zip(T["verticesOnCell"].tolist(), T["nEdgesOnCell"].tolist())]
+    lon = np.degrees(coords["lonVertex"])
+    exp = dict(faces=faces, lon=((lon + 180) % 360) - 180, lat=np.degrees(coords["latVertex"]))
+    ctx.hit("mpas-cutout-of-sample-file")
+    if (T["cellsOnCell"][:, 0] == 0).any() or any(0 in r[:k] for r, k in zip(T["cellsOnCell"].tolist(), T["nEdgesOnCell"].tolist())):
+        ctx.hit("mpas:boundary-cells(cellsOnCell has 0 inside the valid prefix)")
+    mpas_run(ctx, case, sc, T, coords, floats, exp, None, "primal")
 
 
 def case_esmf(ctx, case, sc):
@@ -928,7 +1061,7 @@ def case_geojson(ctx, case, sc):
     judge(ctx, case, exp, open_fn, mt, expect_n_node=sum(map(len, faces)))
 
 
-BUILDERS = dict(ugrid=case_ugrid, topology=case_topology, mpas=case_mpas, esmf=case_esmf, exodus=case_exodus,
+BUILDERS = dict(ugrid=case_ugrid, topology=case_topology, mpas=case_mpas, mpas_cut=case_mpas_cut, esmf=case_esmf, exodus=case_exodus,
                 scrip=case_scrip, vertices=case_vertices, geos=case_geos, icon=case_icon, geojson=case_geojson)
 
 
@@ -1108,6 +1241,15 @@ def tri_meshes(rng):
     return [m.renumber(rng) if rng.random() < 0.6 else m for m in out]
 
 
+def regional_meshes(rng):
+    """partial meshes with boundary cells: lattice patches (also split / merged), open fans, closed meshes with holes"""
+    p = meshes.patch(rng.choice([2, 3, 4]), rng.choice([2, 3]), lon0=rng.choice([-30, 150, 170]), lat0=rng.choice([-20, 40, 70]))
+    out = [p, p.split_some(rng).merge_some(rng), meshes.fan(rng.choice([4, 5, 6]), full=False),
+           meshes.cube_sphere(rng.choice([2, 3])).drop_faces(rng, 0.4), meshes.dual_of(meshes.hull(rng.choice([12, 16]), rng)).drop_faces(rng, 0.35),
+           meshes.hull(rng.choice([10, 14]), rng).drop_faces(rng, 0.3)]
+    return [m.renumber(rng) if rng.random() < 0.7 else m for m in out]
+
+
 def closed3(rng):
     """closed meshes whose every node has valence >= 3 (so that the dual has one face per node)"""
     out = [meshes.prism(rng.choice([3, 4, 5, 6, 7, 8])), meshes.cube_sphere(rng.choice([1, 2])), meshes.icosa(),
@@ -1147,6 +1289,16 @@ def generated(ctx, sc):
         for m in closed3(rng):
             run_case(ctx, gen_mpas(rng, m, dual=True), sc)
             run_case(ctx, gen_mpas(rng, m, dual=False), sc)
+        # regional MPAS meshes: boundary cells / edges / vertices, every optional table supplied
+        for m in regional_meshes(rng):
+            c = gen_mpas(rng, m, dual=False)
+            c["dialect"]["tables"] = True
+            run_case(ctx, c, sc)
+        for _ in range(2):
+            run_case(ctx, dict(fmt="mpas_cut", via_file=rng.random() < 0.3,
+                               dialect=dict(lon0=round(rng.uniform(-180, 180), 3), lat0=round(rng.uniform(-80, 80), 3),
+                                            radius=rng.choice([25, 40, 60, 85]), pad=rng.choice(["zeros", "repeat"]),
+                                            store=rng.choice(["i32", "i64"]))), sc)
         for m in tri_meshes(rng):
             run_case(ctx, gen_icon(rng, m), sc)
             run_case(ctx, gen_exodus(rng, m), sc)
@@ -1329,7 +1481,14 @@ def run_file(ctx, kind, rel, opt):
             return ux.open_grid(str(path))
 
     ctx.hit("sample-file")
-    judge(ctx, case, exp, open_fn, None, expect_n_node=n)
+    g = judge(ctx, case, exp, open_fn, None, expect_n_node=n)
+    if kind == "mpas" and g is not None:
+        # every table / array the file supplies, entry by entry, against the Lean decoders on the raw file
+        raw = _raw(path)
+        names = ["verticesOnCell", "nEdgesOnCell", "cellsOnVertex", "verticesOnEdge", "cellsOnEdge", "edgesOnCell", "cellsOnCell", "edgesOnVertex"]
+        T = {k: np.asarray(raw[k].values) for k in names if k in raw}
+        floats = {k: np.asarray(raw[k].values, float) for k in ("areaCell", "areaTriangle", "dvEdge", "dcEdge") if k in raw}
+        mpas_check_carried(ctx, case, g, "dual" if opt["dual"] else "primal", mpas_expectations(ctx.driver, T), floats, "sample file")
 
 
 def corpus_files(ctx):
